@@ -262,7 +262,7 @@ func (db *RockDB) lpush(ts int64, key []byte, whereSeq int64, args ...[]byte) (i
 	slow.LogLargeCollection(int(newNum), slow.NewSlowLogInfo(string(table), string(key), "list"))
 	if newNum > collectionLengthForMetric {
 		metric.CollectionLenDist.With(ps.Labels{
-			"table": string(table),
+			"table": metric.LabelValue(string(table)),
 		}).Observe(float64(newNum))
 	}
 	return newNum, err
